@@ -51,3 +51,18 @@ func ZZ_C19_prio3_PrepNext_requires_matching_joint_rand_seed() {
 		zzAssert(out == nil, "a refused message releases no output share")
 	}
 }
+
+// C19: an aggregator index outside 0..shares-1 is reported as ErrAggID before anything else is done
+// with the report, for every number of shares and every index
+//
+//zz: prop=C19 tier=quick backend=bv timeout=120
+func ZZ_C19_prio3_PrepInit_refuses_aggregator_index_out_of_range() {
+	shares, aggID := zzU8("numShares"), zzU8("aggID")
+	zzAssumeNote(shares >= 2, "constructor invariant: at least two aggregators")
+	zzAssumeNote(aggID >= shares, "only out-of-range indices (in-range ones run the whole preparation)")
+	v := Prio3[bool, uint64, zzFlp, fp64.Vec, fp64.Fp, *fp64.Fp]{shares: shares}
+	var vk VerifyKey
+	var nonce Nonce
+	_, _, err := v.PrepInit(&vk, &nonce, aggID, nil, InputShare[fp64.Vec, fp64.Fp]{})
+	zzAssert(err == ErrAggID, "aggID >= numShares is refused with ErrAggID")
+}
